@@ -293,6 +293,19 @@ func runC16(r *mc.Run) {
 				{"rebuilt/spare=0", func() *pb.QuoteV4 { return c16Rebuild(parsed, 0) }},
 				{"rebuilt/spare=1", func() *pb.QuoteV4 { return c16Rebuild(parsed, 1) }},
 				{"rebuilt/spare=4096", func() *pb.QuoteV4 { return c16Rebuild(parsed, 4096) }},
+				// the RTMR list itself (the slice of slices) has room behind its four entries: a caller that keeps a longer
+				// register bank and hands its first four entries. The entries behind are the caller's too
+				{"rebuilt/rtmrs-list-is-the-head-of-a-longer-bank", func() *pb.QuoteV4 {
+					q := c16Rebuild(parsed, 8)
+					bank := make([][]byte, 4, 8)
+					copy(bank, q.TdQuoteBody.Rtmrs)
+					full := bank[:8]
+					for k := 4; k < 8; k++ {
+						full[k] = bytes.Repeat([]byte{byte(0xb0 + k)}, 48)
+					}
+					q.TdQuoteBody.Rtmrs = bank
+					return q
+				}},
 				{"proto-wire", func() *pb.QuoteV4 {
 					b, _ := proto.Marshal(parsed)
 					q := &pb.QuoteV4{}
@@ -367,6 +380,13 @@ func runC16(r *mc.Run) {
 						}
 						before := ar.Snapshot()
 						whole := proto.Clone(q) // the scalar fields of the message are caller-owned memory as well
+						// entries of the RTMR list that lie behind its length (the caller's longer bank)
+						var behind []string
+						if tb := q.GetTdQuoteBody(); tb != nil && cap(tb.Rtmrs) > len(tb.Rtmrs) {
+							for _, e := range tb.Rtmrs[len(tb.Rtmrs):cap(tb.Rtmrs)] {
+								behind = append(behind, fmt.Sprintf("%p/%d", unsafe.SliceData(e), len(e)))
+							}
+						}
 						var out string
 						var fault *memwatch.Fault
 						var other any
@@ -386,6 +406,20 @@ func runC16(r *mc.Run) {
 						case !bytes.Equal(before, ar.Snapshot()):
 							r.Violate("write:snapshot:"+op.name, id, op.name+" changed bytes of the caller's quote message / raw input / option byte strings", nil)
 							out = "changed"
+						case func() bool {
+							tb := q.GetTdQuoteBody()
+							if tb == nil || len(behind) == 0 || cap(tb.Rtmrs) < len(tb.Rtmrs)+len(behind) {
+								return false
+							}
+							for k, e := range tb.Rtmrs[len(tb.Rtmrs) : len(tb.Rtmrs)+len(behind)] {
+								if fmt.Sprintf("%p/%d", unsafe.SliceData(e), len(e)) != behind[k] {
+									return true
+								}
+							}
+							return false
+						}():
+							r.Violate("write:list-entry-behind-length:"+op.name, id, op.name+" replaced an entry of the caller's RTMR bank that lies behind the four entries the message lists", nil)
+							out = "changed-list"
 						case !proto.Equal(q, whole):
 							r.Violate("write:message-field:"+op.name, id, op.name+" changed a (non-bytes) field of the caller's quote message: "+firstDiff(q, whole.(*pb.QuoteV4)), nil)
 							out = "changed-field"
